@@ -46,16 +46,17 @@ type Op struct {
 
 // Case is a complete, replayable test case.
 type Case struct {
-	Prop      string      `json:"prop"`
-	Opts      gen.OptSpec `json:"opts"`
-	Cmp       string      `json:"cmp"`
-	Keys      []gen.Hex   `json:"keys"`
-	Ops       []Op        `json:"ops"`
-	Det       bool        `json:"det,omitempty"`       // wait for background work after every mutating step
-	Tree      bool        `json:"tree,omitempty"`      // check C06 invariants on every installed version
-	Files     bool        `json:"files,omitempty"`     // check C07 file-set invariants at idle points
-	Poison    bool        `json:"poison,omitempty"`    // scribble over argument and result buffers (C20)
-	SlowFlush bool        `json:"slowflush,omitempty"` // table creation is delayed a little so that reads meet the frozen buffer
+	Prop       string      `json:"prop"`
+	Opts       gen.OptSpec `json:"opts"`
+	Cmp        string      `json:"cmp"`
+	Keys       []gen.Hex   `json:"keys"`
+	Ops        []Op        `json:"ops"`
+	Det        bool        `json:"det,omitempty"`        // wait for background work after every mutating step
+	Tree       bool        `json:"tree,omitempty"`       // check C06 invariants on every installed version
+	Files      bool        `json:"files,omitempty"`      // check C07 file-set invariants at idle points
+	Poison     bool        `json:"poison,omitempty"`     // scribble over argument and result buffers (C20)
+	SlowFlush  bool        `json:"slowflush,omitempty"`  // table creation is delayed a little so that reads meet the frozen buffer
+	SlowRemove bool        `json:"slowremove,omitempty"` // table removal is delayed a little so that it overlaps what follows a release
 	// FilterCycle, when set, overrides the filter policy: the i-th Open uses
 	// FilterCycle[i mod len] as Options.Filter, with the bloom and hash-set
 	// policies as AltFilters so that tables written under another policy stay
